@@ -27,7 +27,7 @@ func TestCheck(t *testing.T) {
 		"the 'linear time' clause is checked only as: no call on a <=2 KiB input takes 10 s",
 		"secondary configurations of an entry point (quickLite parts) get seeds, truncations, length-field values and 2 KiB variants in the quick tier and the full generator in thorough",
 		"pppoe, ha and dhcp are compiled with the cooperative sync shims (REWRITE): before the parallel workers start, every stateful entry point of these packages is also executed as one Engine B thread per input (quick: seeds, truncations, length-field boundary values, 2 KiB variants; thorough: the quick generator in full) - 'no enabled thread' = self-deadlock, reported with the parked frame; site line numbers of these packages refer to the rewritten copies (imports shift them by a few lines)",
-		"restart timer expiring WHILE a handler runs: Engine B, handler thread x clock thread x fired-timer thread, every interleaving up to preemption bound 1 (quick) / 2 (thorough) for each seed packet in the 5 states with a running timer; the exploration runs inside a synctest bubble so that a thread blocked on a raw channel is found by the runtime",
+		"packet handler || periodic actor (Engine B, every interleaving up to preemption bound 1 quick / 2 thorough, each seed packet, inside a synctest bubble so that raw channel blocks are found by the runtime): restart timer expiry (clock + fired-timer threads) in the 5 timer states of LCP/IPCP/IPV6CP; SessionKeepAlive.check against the LCP automaton in all 10 states with a keep-alive attached (echo pending or not); KeepAliveManager sweep against the echo-reply path; PPPoE session cleanup sweep against handleSession/handleDiscovery with a session in each SessionState; DHCPv4 lease cleanup tick against handleDHCP with an expired lease. Not covered: HA tickers (heartbeat/broadcast run on the active side, not against a packet decoder)",
 		"the wall clock never decides a blocked call: after 10 s + 10 s alone a call that is still RUNNING is a non-terminating computation (violation); a call that is BLOCKED is decided by Engine B when the package is instrumented and is otherwise a harness error (exit 2)",
 		"every handler is enumerated under each configuration switch it branches on: DHCPv6 legacy/integrated/absent address and prefix back-ends (all 8 combinations used) x lease, DNS on/off; DHCPv4 loader nil/unloaded, RADIUS off/accept/reject/accounting-only, QoS+NAT managers, empty pool manager; PPPoE server with/without pool+DNS and with a RADIUS client; Authenticator with RADIUS accept/reject incl. the rate-limited state; IPCP static/pool/no peer address; LCP PAP/CHAP+PFC+ACFC; CoA default and application handlers. Not covered: DHCPv4 with Nexus client / HTTP allocator / peer pool (need an HTTP peer)",
 	}
